@@ -196,12 +196,11 @@ where
                     Poll::Ready(Some(Err(e))) => {
                         error!("Received invalid message from replier: {e:?}")
                     }
-                    // Server has finished
+                    // Server has finished: unbind it right away, so that a replier registering
+                    // from now on is accepted (its own sink is gone with it, nothing to flush)
                     Poll::Ready(None) => {
-                        let si = &mut server.as_mut().as_pin_mut().unwrap().0;
-                        ready!(si.poll_flush_unpin(cx)).unwrap();
-                        ready!(sink.as_mut().poll_flush(cx)).unwrap();
                         *server = None;
+                        ready!(sink.as_mut().poll_flush(cx)).unwrap();
                     }
                     // No messages are available at this time
                     Poll::Pending => {
